@@ -1,21 +1,22 @@
-(* C01/ProofsRefuted.v — defects of the unchanged library that the faithful model exhibits. *)
+(* C01/ProofsRefuted.v — former defects of the library on the model.
+   F-SETORD (Set assigned Order before Alloc) and F-ABSC (concrete ABS tested the
+   receiver's sign) were fixed in /repo (d9fca78, 2fc8894); the model follows HEAD and
+   the former witnesses now behave: kept here as regression lemmas. *)
 From Coq Require Import Reals ZArith List Lra Lia.
 From ADV Require Import Base.Fl Base.Num C01.Model C01.ModelR.
 Import ListNotations.
 Open Scope R_scope.
 
-(* F-SETORD: x.Set(y), x of order 1 and y of order 2 over the same two variables *)
+(* x.Set(y), x of order 1 and y of order 2 over the same two variables: used to panic *)
 Definition st_setord : St (A := R) :=
-  upd (upd stR0 0 (mkReg K64 1 1 2 [1; 0] [])) 1 (mkReg K64 3 2 2 [1; 0] [[0; 0]; [0; 0]]).
-Lemma set_order_before_alloc_refuted : set_reg (FlR Sp0) idR 0 (Rg 1) st_setord = Panic EIndex.
-Proof. reflexivity. Qed.
+  upd (upd stR0 0 (mkReg K64 1 1 2 [1; 0] [])) 1 (mkReg K64 3 2 2 [0; 1] [[0; 0]; [0; 5]]).
+Lemma set_order_witness_fixed :
+  exists s', set_reg (FlR Sp0) idR 0 (Rg 1) st_setord = Ok s' /\
+             rorder (s' 0%nat) = 2%nat /\ rn (s' 0%nat) = 2%nat /\ rval (s' 0%nat) = 3 /\
+             rderiv (s' 0%nat) = [0; 1] /\ rhess (s' 0%nat) = [[0; 0]; [0; 5]].
+Proof. eexists. split; [reflexivity|]. repeat split; reflexivity. Qed.
 
-(* F-ABSC: the concrete ABS looks at the receiver's sign: c = 0, a = -2 gives -2 *)
-Definition st_absc : St (A := R) := upd (upd stR0 0 (mkReg K64 0 0 0 [] [])) 1 (mkReg K64 (-2) 0 0 [] []).
-Lemma abs_concrete_refuted :
-  exists s', do_ABS_concrete (FlR Sp0) idR 0 (Rg 1) st_absc = Ok s' /\ rval (s' 0%nat) = -2.
-Proof.
-  unfold do_ABS_concrete, sign_of. cbn [st_absc upd Nat.eqb rval stR0 FlR fltb zero lit fofZ].
-  unfold Rltb. destruct (Rlt_dec 0 0) as [H|H]; [lra|].
-  cbn [Z.eqb]. eexists. split; [reflexivity|]. reflexivity.
-Qed.
+(* the concrete ABS is the generic Abs *)
+Lemma abs_concrete_is_abs : forall S c a (s : St (A := R)),
+  do_ABS_concrete (FlR S) idR c a s = do_abs (FlR S) idR c a s.
+Proof. reflexivity. Qed.
